@@ -346,7 +346,22 @@ func (g *c19Gen) setupBlock(b int) ([][]byte, []string) {
 			cur = roundDown(p.GetCurrentTick(), 100)
 		}
 		for i := 0; i < 3; i++ {
-			add(g.acc(i), "CL narrow", &cltypes.MsgCreatePosition{PoolId: 3, Sender: g.acc(i).Addr.String(), LowerTick: cur - int64(100*(5+3*i)), UpperTick: cur + int64(100*(4+7*i)), TokensProvided: sdk.NewCoins(c("bar", 40000000000), c("uosmo", 20000000000)), TokenMinAmount0: sdkmath.ZeroInt(), TokenMinAmount1: sdkmath.ZeroInt()})
+			add(g.acc(i), "cl narrow", &cltypes.MsgCreatePosition{PoolId: 3, Sender: g.acc(i).Addr.String(), LowerTick: cur - int64(100*(5+3*i)), UpperTick: cur + int64(100*(4+7*i)), TokensProvided: sdk.NewCoins(c("bar", 40000000000), c("uosmo", 20000000000)), TokenMinAmount0: sdkmath.ZeroInt(), TokenMinAmount1: sdkmath.ZeroInt()})
+		}
+	case 4:
+		// locks that last longer than the unbonding period, superfluid-delegated in the next block to one validator
+		// (one intermediary account with several locks of different durations)
+		for i := 0; i < 3; i++ {
+			add(g.acc(i+4), "lock long", &lockuptypes.MsgLockTokens{Owner: g.acc(i + 4).Addr.String(), Duration: time.Duration(21+7*i) * 24 * time.Hour, Coins: sdk.NewCoins(sdk.NewCoin("gamm/pool/1", gammtypes.OneShare.QuoRaw(int64(3+i))))})
+		}
+	case 5:
+		for i := 0; i < 3; i++ {
+			for _, l := range ch.App.LockupKeeper.GetAccountPeriodLocks(ch.Ctx, g.acc(i+4).Addr) {
+				if l.Duration >= 21*24*time.Hour {
+					add(g.acc(i+4), "superfluid delegate", &sftypes.MsgSuperfluidDelegate{Sender: g.acc(i + 4).Addr.String(), LockId: l.ID, ValAddr: ch.Vals[0].OpAddr.String()})
+					break
+				}
+			}
 		}
 	}
 	return txs, ds
@@ -741,7 +756,7 @@ func c19RunRole(c *vk.Ctx) bool {
 		for b := 0; b < nBlocks; b++ {
 			var txs [][]byte
 			var ds []string
-			if b < 4 {
+			if b < 6 {
 				txs, ds = g.setupBlock(b)
 			} else {
 				// every history has a pool creation that fails as a whole and, after at least one export point, the
